@@ -16,6 +16,18 @@ whose name only SANITISES to the requested name stands BEFORE the column that ca
 (['Region ID', 'region_id'] with left_on='region_id'; ['A', 'a'] with 'a'; one to three keys; the twin on
 the left, the right or both sides; its values are other keys): rows must be paired on the exactly named
 column (class suffix ':key-named-like-an-earlier-sanitised-twin').
+The 'advtext-*' blocks (relational_common.adv_text_join_cases) use two and three str key columns whose
+components contain characters that could serve to glue a composite key into one text (unit / record
+separator, NUL, comma, bar, blank, tab, slash), the empty string, concatenations of other components and
+look-alikes of a tuple's repr; the tables hold ALL key tuples over such a component set, so every pair of
+different tuples with the same glued text meets: only equal tuples pair (suffix ':adversarial-key-texts').
+The 'large-*' blocks (large_join_cases) join tables of 9 / 12 / 17 / 33 and more rows with structured matched
+/ unmatched subsets (suffix ':larger-tables').
+The 'rejoin' cases (rejoin_cases / eval_rejoin) call inner_join, rewrite one key cell of the right or left
+table in place (column view or table cell assignment; also to an int with the SAME hash: -1 <-> -2,
+0 <-> 2**61-1), call again, write the old value back and call a third time, and swap the names of the key
+column and another column through live views between two calls by name: every call must follow the
+definition on the contents of its moment (key 'C09:inner_join-repeated:<what was written>:stale-<class>').
 """
 from relational_common import *  # noqa
 
@@ -23,15 +35,19 @@ PID = 'C09'
 
 
 def cases(tier, seed):
-    for case in itertools.chain(join_cases(tier, heavy=False), twin_join_cases(tier, heavy=False)):
+    for case in itertools.chain(join_cases(tier, heavy=False), twin_join_cases(tier, heavy=False),
+                                adv_text_join_cases(tier, heavy=False), large_join_cases(tier, heavy=False)):
         case['op'] = 'inner_join'
         yield case
+    yield from rejoin_cases(tier, ['inner_join'])
 
 
 def evaluate(case):
+    if case['op'] == 'rejoin':
+        return eval_rejoin(PID, case)
     fails = []
     op = 'inner_join'
-    descr = join_descr(case, op)
+    descr = big_join_descr(case, op)
     try:
         s = JoinSetup(case)
     except Exception as e:       # building the operands is not the operation under test
@@ -42,14 +58,22 @@ def evaluate(case):
     except Exception as e:
         return [Fail(f'{PID}:{op}:raises:{type(e).__name__}', f'{descr}: raised {e!r}', s.want_inner(), repr(e),
                      f'{PID}:{op}:post')]
-    check_join_output(PID, op, res, s.want_inner(), s.names(), fails, descr, tag=hc_tag(case))
+    want = s.want_inner()
+    got = check_join_output(PID, op, res, want, s.names(), fails, descr, tag=family_tag(case))
+    if fails and len(want) > 12:
+        explain_row_difference(fails, 0, s, got, want)
     if s.snapshot() != before:
         fails.append(Fail(f'{PID}:{op}:input-modified', f'{descr}: an operand changed', before, s.snapshot()))
     return fails
 
 
 def nontrivial(case):
-    return join_signature(case)
+    if case['op'] == 'rejoin':
+        return rejoin_signature(case)
+    sig = join_signature(case)
+    if sig is not None and case.get('block', '').startswith(('advtext', 'large-')):
+        sig += (case['block'], case.get('layout'), case.get('matched'), case.get('order'))
+    return sig
 
 
 if __name__ == '__main__':
@@ -57,7 +81,7 @@ if __name__ == '__main__':
          rule='every pair (left key rows, right key rows) of each block in `bound`, compared with the nested-loop '
               'definition (rows, order, column names, inputs unchanged, C03 truthfulness of the result); kinds / '
               '(key mode, names, payload) configurations are crossed in full or rotated with the pair index as stated per '
-              'block; distinct = distinct (key kinds, mode, names, payloads, row counts, dup-left, dup-right, None key, '
+              'block; adversarial-text, larger-table and call-write-call-again families as described in `bound`; distinct = distinct (key kinds, mode, names, payloads, row counts, dup-left, dup-right, None key, '
               'unmatched-left, unmatched-right, any-match) signatures',
-         bound=lambda tier: join_bound(tier, heavy=False),
+         bound=lambda tier: dict(join_bound(tier, heavy=False), **round4_bound(tier, False, ['inner_join'])),
          nontrivial=nontrivial)
